@@ -191,7 +191,9 @@ func (x *Exec) loopHeader(fr *Frame, li *loopInfo, st *State, reach string) {
 			break
 		}
 	}
+	li.entryState = st.clone()
 	c := x.newCtx(st, fr.entry, fr.con.Pkg, reach, fr)
+	c.lentry = li.entryState
 	x.loopEnv(fr, li, c, func(p *ssa.Phi) Val { return entryVals[p] })
 	for k, cl := range inv {
 		f, err := c.formula(cl.E)
@@ -264,6 +266,7 @@ func (x *Exec) loopHeader(fr *Frame, li *loopInfo, st *State, reach string) {
 	}
 	// 3. assume invariant for an arbitrary iteration
 	c2 := x.newCtx(st, fr.entry, fr.con.Pkg, reach, fr)
+	c2.lentry = li.entryState
 	x.loopEnv(fr, li, c2, func(p *ssa.Phi) Val { return fr.vals[p] })
 	for _, cl := range inv {
 		f, err := c2.formula(cl.E)
@@ -287,6 +290,7 @@ func (x *Exec) loopBackEdge(fr *Frame, li *loopInfo, from *ssa.BasicBlock, cond 
 	inv, dec := x.loopClauses(fr, li)
 	idx := predIndex(li.header, from)
 	c := x.newCtx(st, fr.entry, fr.con.Pkg, cond, fr)
+	c.lentry = li.entryState
 	x.loopEnv(fr, li, c, func(p *ssa.Phi) Val { return x.value(fr, p.Edges[idx]) })
 	for k, cl := range inv {
 		f, err := c.formula(cl.E)
